@@ -36,6 +36,31 @@ class U(Exception):
         self.c = c
 
 
+# user code raises all sorts of exception classes; the caching layer must treat them alike (the model does)
+class UImport(U, ImportError):
+    pass
+
+
+class UValue(U, ValueError):
+    pass
+
+
+class UKey(U, LookupError):
+    pass
+
+
+class UArith(U, ArithmeticError):
+    pass
+
+
+class UAttr(U, AttributeError):
+    pass
+
+
+def user_exception(c):
+    return (U, UImport, UValue, UKey, UArith, UAttr)[c % 6](c)
+
+
 def show_val(v):
     if isinstance(v, bool):
         return f"BOOL{v}"
@@ -246,7 +271,7 @@ def build_class(d, cache_mod, fw_mod, tag="K"):
         if tag_ == "R":
             g = ev(t[2], self, cls)
             if oracle_I(t[1], g):
-                raise U(t[1])
+                raise user_exception(t[1])
             return ev(t[3], self, cls)
         raise ValueError(t)
 
@@ -255,7 +280,7 @@ def build_class(d, cache_mod, fw_mod, tag="K"):
 
         def f(self, val):
             if vd[0] in ("rej", "nrej") and oracle_I(vd[1], val):
-                raise U(vd[1])
+                raise user_exception(vd[1])
             if vd[0] in ("norm", "nrej"):
                 return oracle_N(vd[1], val)
             return val
